@@ -624,6 +624,10 @@ fn main() {
                     let ev = sys.step(&op);
                     obs = ev["obs"].clone();
                     t.step(ev);
+                    if edge && (an.iter().any(|a| fine_small_part(get(&obs, "bal", a)) > 60 || fine_small_part(get(&obs, "frozen", a)) > 60)
+                        || fine_small_part(obs["supply"].as_i64().unwrap_or(0)) > 60) {
+                        break;
+                    }
                 }
             }
             t.finish();
